@@ -19,7 +19,7 @@ MAP = {"1": ["C09", "C10", "C11", "C07"], "2": ["C11", "C10", "C07"], "3": ["C08
        "59": ["C16", "C17", "C01"], "60": ["C09", "C07"], "61": ["C04", "C03", "C02"], "62": ["C16", "C17"], "63": ["C08", "C05", "C02"], "64": ["C15", "C17"],
        # batch 5 (functions put under contract in session 2)
        "65": ["C05", "C01"], "66": ["C05"], "67": ["C05", "C01"], "68": ["C02", "C05", "C15"], "69": ["C02", "C01"], "70": ["C05", "C06", "C01"], "71": ["C01", "C04"],
-       "72": ["C16", "C17"], "73": ["C20", "C17"], "74": ["C16", "C17"], "75": ["C19"], "76": ["C19"], "77": ["C03", "C19"], "78": ["C08", "C05"], "79": ["C15", "C17"], "80": ["C11", "C10"], "81": ["C20"], "82": ["C15", "C17"], "97": ["C11", "C10"],
+       "72": ["C16", "C17"], "73": ["C20", "C17"], "74": ["C16", "C17"], "75": ["C19"], "76": ["C19"], "77": ["C03", "C19"], "78": ["C08", "C05"], "79": ["C15", "C17"], "80": ["C11", "C10"], "81": ["C20"], "82": ["C15", "C17"], "97": ["C11", "C10"], "98": ["C15"], "99": ["C13"],
        # batch 6 (internals restructured: FFT helpers, shared widget identities, constants, readers)
        "83": ["C19"], "84": ["C19"], "85": ["C19"], "86": ["C01", "C20"], "87": ["C20"], "88": ["C06", "C05"], "89": ["C05", "C01"], "90": ["C01", "C15"], "91": ["C15", "C17"], "92": ["C15", "C17"], "93": ["C04", "C16", "C17"], "94": ["C19"], "95": ["C05", "C02", "C03"], "96": ["C13", "C12", "C09"],
        "35": ["C11", "C09"], "36": ["C11", "C07"], "37": ["C08"], "38": ["C08", "C04"], "39": ["C15", "C17"], "40": ["C15", "C01"], "41": ["C20", "C01"], "42": ["C20", "C15"]}
